@@ -321,6 +321,7 @@ func remoteHTTPUpgrade(update updateRequest, remote string) {
 		wl.Printf("upgrade(remote): error sending update request: %v", err)
 		return
 	}
+	defer resp.Body.Close() //nolint:errcheck
 	if resp.StatusCode != http.StatusOK {
 		wl.Printf("upgrade(remote): failed for '%s' with status: %s", update.username, resp.Status)
 	} else {
